@@ -32,7 +32,7 @@ Lemma step_logs c s m :
    ∃ x, donated s' = x :: donated s ∧ ((0 < x.2)%Z ∨ ∃ w, w ∈ L2.wlog (l2 s) ∧ x.2 = L2.w_amt w)).
 Proof.
   cbn zeta.
-  destruct m as [e sender to d amt data|e from to d amt|m2|k ex h hook|e p idx l2b lo hi v bh|e ch idx|e sender idx m lo hi v bh|e m1];
+  destruct m as [e sender to d amt data|e from to d amt|m2|k ex h hook|e p idx l2b lo hi v bh|e ch idx|e sender idx m lo hi v bh|e m1|e mo];
     cbn [sys_step].
   - (* deposit *)
     case_bool_decide; [cbn; auto|]. unfold lift1, L1.step. cbn [L1.handle].
@@ -77,6 +77,11 @@ Proof.
     destruct (L1.handle (c1 c) e (l1 s) m1) as [[s1 r]|] eqn:Hh; [|cbn; auto].
     apply (l1_admin_frame _ _ _ _ _ _ Ha) in Hh as (_ & Hel & _ & _). cbn [fst set_l1 l1 l2 donated].
     split; [left; by apply bevents_same|auto].
+  - (* another bridge / creation *)
+    pose proof (other_step_spec c s e mo) as Hsp; cbn zeta in Hsp; cbn [sys_step] in Hsp; destruct Hsp as (_ & _ & [->|(s1 & rr & Hok & Hh & Hl1 & Hdn)]); [auto|].
+    destruct (other_handle_spec c e (l1 s) mo s1 rr Hok Hh) as (Hel & _ & _ & _ & Hpos).
+    rewrite Hl1, Hdn. split; [by left|]. destruct (other_donation c mo) as [x|]; [|by left].
+    right. exists x. split; [done|]. left. by apply Hpos.
 Qed.
 
 Definition l2ok (c : scfg) (s : sys) : Prop := C04Proofs.inv (c2 c) (l2 s).
@@ -102,7 +107,7 @@ Lemma step_l2ok c s m :
   L2.resolve (c2 c) [] = None → nonneg c s → l2ok c s → l2ok c (sys_step c s m).1.
 Proof.
   intros Hnil [N1 _] Hok. unfold l2ok in *.
-  destruct m as [e sender to d amt data|e from to d amt|m2|k ex h hook|e p idx l2b lo hi v bh|e ch idx|e sender idx m lo hi v bh|e m1];
+  destruct m as [e sender to d amt data|e from to d amt|m2|k ex h hook|e p idx l2b lo hi v bh|e ch idx|e sender idx m lo hi v bh|e m1|e mo];
     cbn [sys_step].
   - case_bool_decide; [done|]. unfold lift1. destruct (L1.step _ _ _ _) as [s1 [r|]]; done.
   - case_bool_decide; [done|]. unfold lift1. destruct (L1.step _ _ _ _) as [s1 [r|]]; [|done].
@@ -119,6 +124,7 @@ Proof.
   - unfold lift1. destruct (L1.step _ _ _ _) as [s1 [r|]]; done.
   - destruct (find_w (l2 s) m) as [w|]; [|done]. unfold lift1. destruct (L1.step _ _ _ _) as [s1 [r|]]; done.
   - destruct (l1_admin m1); [|done]. unfold lift1. destruct (L1.step _ _ _ _) as [s1 [r|]]; done.
+  - pose proof (other_step_spec c s e mo) as Hsp; cbn zeta in Hsp; cbn [sys_step] in Hsp; destruct Hsp as (-> & _). done.
 Qed.
 
 Lemma run_ok c h : ∀ s, L2.resolve (c2 c) [] = None → nonneg c s → l2ok c s →
@@ -139,6 +145,44 @@ Lemma fresh_l2ok c s : fresh c s → l2ok c s.
 Proof.
   intros (_ & _ & _ & _ & _ & F6 & F7 & _ & F9 & _). unfold l2ok, C04Proofs.inv.
   rewrite F9, F6. split; [lia|]. split; [|constructor]. intros d b. rewrite F7. by rewrite lookup_empty.
+Qed.
+
+(* ---- the L2 bank stays consistent, hence the L2 supply is never negative ---- *)
+Require Proofs.BankNonneg Proofs.BankTotal.
+
+Lemma bank_sane_iff b : bank_sane b ↔ BankNonneg.bank_nonneg b ∧ BankTotal.bank_ok b.
+Proof. reflexivity. Qed.
+
+Lemma step_bank_sane c s m : bank_sane (L2.bk (l2 s)) → bank_sane (L2.bk (l2 (sys_step c s m).1)).
+Proof.
+  intros Hs.
+  assert (HL2 : ∀ m2 s2 r, L2.handle (c2 c) (l2 s) m2 = Some (s2, r) → bank_sane (L2.bk s2)).
+  { intros m2 s2 r Hh. apply bank_sane_iff in Hs as [Hn Hk]. apply bank_sane_iff. split.
+    - eapply BankNonneg.handle_nonneg; eauto.
+    - eapply BankTotal.handle_ok; eauto. }
+  destruct m as [e sender to d amt data|e from to d amt|m2|k ex h hook|e p idx l2b lo hi v bh|e ch idx|e sender idx m lo hi v bh|e m1|e mo];
+    cbn [sys_step].
+  - case_bool_decide; [done|]. unfold lift1. destruct (L1.step _ _ _ _) as [s1 [r|]]; done.
+  - case_bool_decide; [done|]. unfold lift1. destruct (L1.step _ _ _ _) as [s1 [r|]]; [|done].
+    case_bool_decide; done.
+  - destruct (l2_plain m2); [|done]. unfold lift2, L2.step.
+    destruct (L2.handle (c2 c) (l2 s) m2) as [[s2 r]|] eqn:Hh; [|done]. cbn. eapply HL2; eauto.
+  - destruct (find_event c (l1 s) k) as [ev|]; [|done]. unfold lift2, L2.step.
+    destruct (L2.handle (c2 c) (l2 s) _) as [[s2 r]|] eqn:Hh; [|done]. cbn. eapply HL2; eauto.
+  - unfold lift1. destruct (L1.step _ _ _ _) as [s1 [r|]]; done.
+  - unfold lift1. destruct (L1.step _ _ _ _) as [s1 [r|]]; done.
+  - destruct (find_w (l2 s) m) as [w|]; [|done]. unfold lift1. destruct (L1.step _ _ _ _) as [s1 [r|]]; done.
+  - destruct (l1_admin m1); [|done]. unfold lift1. destruct (L1.step _ _ _ _) as [s1 [r|]]; done.
+  - pose proof (other_step_spec c s e mo) as Hsp; cbn zeta in Hsp; cbn [sys_step] in Hsp; destruct Hsp as (-> & _). done.
+Qed.
+
+Lemma run_bank_sane c h : ∀ s, bank_sane (L2.bk (l2 s)) → bank_sane (L2.bk (l2 (sys_run c s h))).
+Proof. induction h as [|m h IH]; intros s Hs; cbn; [done|]. apply IH. by apply step_bank_sane. Qed.
+
+Lemma supply_nonneg_run c s0 h d : genesis c s0 → (0 ≤ gets (L2.bk (l2 (sys_run c s0 h))) d)%Z.
+Proof.
+  intros [_ Hs]. apply (run_bank_sane c h) in Hs. apply bank_sane_iff in Hs as [Hn Hk].
+  by apply BankTotal.supply_nonneg.
 Qed.
 
 (* after any history from fresh states: every recorded, unpaid withdrawal of the L2 denom
@@ -351,7 +395,7 @@ Proof.
   assert (Hl2 : ∀ s2 ws, L2.wlog s2 = ws ++ L2.wlog (l2 s) → proven_paid c (set_l2 s s2)).
   { intros s2 ws Hw x Hx. cbn in *. destruct (J x Hx) as (w & Hin & Hp & ->). exists w.
     split; [rewrite Hw; apply elem_of_app; by right|done]. }
-  destruct m as [e sender to d amt data|e from to d amt|m2|k ex h hook|e p idx l2b lo hi v bh|e ch idx|e sender idx m lo hi v bh|e m1];
+  destruct m as [e sender to d amt data|e from to d amt|m2|k ex h hook|e p idx l2b lo hi v bh|e ch idx|e sender idx m lo hi v bh|e m1|e mo];
     cbn [sys_step].
   - case_bool_decide; [done|]. unfold lift1, L1.step. cbn [L1.handle].
     destruct (L1.deposit _ _ _ _ _ _ _ _ _) as [[s1 r]|] eqn:Hd; [|done].
@@ -385,6 +429,10 @@ Proof.
   - destruct (l1_admin m1) eqn:Ha; [|done]. unfold lift1, L1.step.
     destruct (L1.handle (c1 c) e (l1 s) m1) as [[s1 r]|] eqn:Hh; [|done].
     apply (l1_admin_frame _ _ _ _ _ _ Ha) in Hh as (_ & _ & _ & Hpr). by apply Hl1.
+  - pose proof (other_step_spec c s e mo) as Hsp; cbn zeta in Hsp; cbn [sys_step] in Hsp; destruct Hsp as (H2 & Hp & [->|(s1 & rr & Hok & Hh & Hl1o & _)]); [done|].
+    destruct (other_handle_spec c e (l1 s) mo s1 rr Hok Hh) as (_ & _ & Hpr & _).
+    intros x Hx. rewrite Hl1o in Hx. apply Hpr in Hx. destruct (J x Hx) as (w & ? & ? & ->).
+    exists w. rewrite H2, Hp. done.
 Qed.
 
 Lemma run_proven_paid c h : ∀ s, proven_paid c s → proven_paid c (sys_run c s h).
@@ -439,4 +487,106 @@ Proof.
   destruct (unpaid_unclaimed c s w Hlen I Hok J Hb Hn Hin ltac:(by rewrite Hm)) as [Hnew|Hc]; [|by right; right].
   destruct (c08_drain_claim c s0 h e sender idx m lo hi v bh w x o rcv F Hnil Hlen Hsup Hf Hnp Hrange Hpos Hrcv
               Hsender Hb1 Hidx Hcfg Hout Hroot Hfinal Hbh Hnew) as [Hok'|Hc]; [by left|by right; left].
+Qed.
+
+(* ------------------------------------------------------------------------------------ *)
+(* the drain parts from genesis: the supply premise is discharged by reachability          *)
+(* ------------------------------------------------------------------------------------ *)
+Lemma c08_drain_funded c s0 h d w :
+  genesis c s0 → L2.resolve (c2 c) [] = None →
+  let s := sys_run c s0 h in
+  w ∈ L2.wlog (l2 s) → L2.w_seq w ∉ paid s → L2.w_denom w = l2d c d →
+  (L2.w_amt w ≤ getb (L1.bk (l1 s)) (escrow_of c) d)%Z ∨ denom_collision c.
+Proof.
+  intros G Hnil s. apply (c08_unpaid_funded c s0 h d w (proj1 G) Hnil). apply supply_nonneg_run, G.
+Qed.
+
+Lemma c08_drain_claim_g c s0 h e sender idx m lo hi v bh w x o rcv :
+  genesis c s0 → L2.resolve (c2 c) [] = None → (∀ y, length (L1.hash (c1 c) y) = 32%nat) →
+  let s := sys_run c s0 h in
+  (bid c < two64N)%N → (L2.next_l2 (l2 s) ≤ two64N)%N →
+  find_w (l2 s) m = Some w → m ∉ paid s → (lo < m ≤ hi)%N →
+  (0 < L2.w_amt w)%Z → L1.resolve (c1 c) (L2.w_to w) = Some rcv → is_Some (L1.resolve (c1 c) sender) →
+  (1 ≤ bid c)%N → (1 ≤ idx)%N →
+  L1.configs (l1 s) !! bid c = Some x → L1.outputs (l1 s) !! (bid c, idx) = Some o →
+  L1.o_root o = honest_root c (l2 s) lo hi v bh → L1.is_final x e o = true → length bh = 32%nat →
+  (sys_step c s (SClaim e sender idx m lo hi v bh)).2 = true ∨ denom_collision c ∨ Collision (L1.hash (c1 c)).
+Proof.
+  intros G Hnil Hlen s Hb Hn. apply (c08_drain_claim_binding c s0 h e sender idx m lo hi v bh w x o rcv (proj1 G) Hnil Hlen Hb Hn).
+  apply supply_nonneg_run, G.
+Qed.
+
+(* ------------------------------------------------------------------------------------ *)
+(* conservation of combined holdings: no step mints or burns on L1                         *)
+(* ------------------------------------------------------------------------------------ *)
+Lemma fee_loop_total cr pl fee d : ∀ b b',
+  L1DepLemmas.fee_loop cr pl b fee = Some b' → bal_total b' d = bal_total b d.
+Proof.
+  unfold L1DepLemmas.fee_loop. induction fee as [|[dn am] fee IH]; intros b b'; cbn.
+  - by intros [= <-].
+  - destruct (bank_send b cr pl dn am) as [b1|] eqn:Hs; cbn.
+    + intros Hf. rewrite (IH _ _ Hf). by eapply (BankTotal.btotal_send b cr pl dn am b1 d).
+    + rewrite L1DepLemmas.fee_loop_None. discriminate.
+Qed.
+
+Lemma other_handle_total c e s1 m s1' r d :
+  other_ok c m = true → L1.handle (c1 c) e s1 m = Some (s1', r) →
+  bal_total (L1.bk s1') d = bal_total (L1.bk s1) d.
+Proof.
+  intros Hok Hh. destruct m; try discriminate; cbn [L1.handle] in Hh.
+  - apply L1DepLemmas.create_Some in Hh as (cr & _ & _ & Hfee & _). by eapply fee_loop_total.
+  - apply l1_propose_effect in Hh as (Hb & _). by rewrite Hb.
+  - apply l1_delete_effect in Hh as (Hb & _). by rewrite Hb.
+  - apply L1DepLemmas.deposit_Some in Hh as (sd & _ & _ & _ & _ & _ & _ & _ & Hbk & _).
+    destruct (0 <? amt)%Z; [by eapply (BankTotal.btotal_send _ _ _ _ _ _ d)|by injection Hbk as <-].
+  - apply L1DepLemmas.finalize_Some in Hh as (rcv & _ & _ & _ & _ & _ & _ & _ & _ & _ & Hbk & _).
+    by eapply (BankTotal.btotal_send _ _ _ _ _ _ d).
+Qed.
+
+Lemma step_l1_total c s m d :
+  bal_total (L1.bk (l1 (sys_step c s m).1)) d = bal_total (L1.bk (l1 s)) d.
+Proof.
+  assert (Hsend : ∀ b from to d0 x b', bank_send b from to d0 x = Some b' → bal_total b' d = bal_total b d).
+  { intros. by eapply (BankTotal.btotal_send b from to d0 x b' d). }
+  destruct m as [e sender to d0 amt data|e from to d0 amt|m2|k ex h hook|e p idx l2b lo hi v bh|e ch idx|e sender idx m lo hi v bh|e m1|e mo];
+    cbn [sys_step].
+  - case_bool_decide; [done|]. unfold lift1, L1.step. cbn [L1.handle].
+    destruct (L1.deposit _ _ _ _ _ _ _ _ _) as [[s1 r]|] eqn:Hd; [|done]. cbn.
+    apply l1_deposit_effect in Hd as (sd & _ & _ & Hbk & _). destruct (0 <? amt)%Z; [by eapply Hsend|by rewrite Hbk].
+  - case_bool_decide; [done|]. unfold lift1, L1.step. cbn [L1.handle].
+    destruct (L1.bank_send_msg _ _ _ _ _) as [[s1 r]|] eqn:Hd; [|done].
+    apply l1_bank_send_effect in Hd as (Hbk & _). case_bool_decide; cbn; by eapply Hsend.
+  - destruct (l2_plain m2); [|done]. unfold lift2. destruct (L2.step _ _ _) as [s2 [r|]]; done.
+  - destruct (find_event c (l1 s) k) as [ev|]; [|done]. unfold lift2. destruct (L2.step _ _ _) as [s2 [r|]]; done.
+  - unfold lift1, L1.step. cbn [L1.handle].
+    destruct (L1.propose _ _ _ _ _ _ _ _) as [[s1 r]|] eqn:Hd; [|done].
+    apply l1_propose_effect in Hd as (Hbk & _). cbn. by rewrite Hbk.
+  - unfold lift1, L1.step. cbn [L1.handle].
+    destruct (L1.delete_output _ _ _ _ _ _) as [[s1 r]|] eqn:Hd; [|done].
+    apply l1_delete_effect in Hd as (Hbk & _). cbn. by rewrite Hbk.
+  - destruct (find_w (l2 s) m) as [w|]; [|done]. unfold lift1, L1.step, claim_of. cbn [L1.handle].
+    destruct (L1.finalize _ _ _ _ _ _ _ _ _ _ _ _ _ _ _) as [[s1 r]|] eqn:Hd; [|done].
+    apply l1_finalize_effect in Hd as (rcv & _ & _ & Hbk & _). cbn. by eapply Hsend.
+  - destruct (l1_admin m1) eqn:Ha; [|done]. unfold lift1, L1.step.
+    destruct (L1.handle (c1 c) e (l1 s) m1) as [[s1 r]|] eqn:Hh; [|done].
+    apply (l1_admin_frame _ _ _ _ _ _ Ha) in Hh as (Hbk & _). cbn. by rewrite Hbk.
+  - pose proof (other_step_spec c s e mo) as Hsp; cbn zeta in Hsp; cbn [sys_step] in Hsp; destruct Hsp as (_ & _ & [->|(s1 & rr & Hok & Hh & -> & _)]); [done|].
+    by eapply other_handle_total.
+Qed.
+
+Lemma run_l1_total c h d : ∀ s, bal_total (L1.bk (l1 (sys_run c s h))) d = bal_total (L1.bk (l1 s)) d.
+Proof. induction h as [|m h IH]; intros s; cbn; [done|]. by rewrite IH, step_l1_total. Qed.
+
+(* what is held of d on L1 outside the escrow, plus the L2 supply of its derived denom, plus the
+   value in flight (unrelayed deposits, unpaid withdrawals) and the donations, is the initial L1
+   total of d: no system step creates or destroys value *)
+Lemma c08_holdings_conserved c s0 h d :
+  fresh c s0 →
+  let s := sys_run c s0 h in
+  ((bal_total (L1.bk (l1 s)) d - getb (L1.bk (l1 s)) (escrow_of c) d) +
+   gets (L2.bk (l2 s)) (l2d c d) + pending_dep c s d + pending_wd s (l2d c d) + donations s d
+   = bal_total (L1.bk (l1 s0)) d)%Z ∨ denom_collision c.
+Proof.
+  intros F s. destruct (c08_solvency_invariant c s0 h d F) as [Hs|Hc]; [left|by right].
+  unfold solvent in Hs. fold s in Hs. unfold s at 1. rewrite run_l1_total. fold s. lia.
 Qed.
